@@ -53,7 +53,7 @@ def plan(tier, seed):
     # proto name is not their Python name, builtin-named fields under typing.310 -- every message is constructed and its
     # to_dict output fed back to from_dict
     for it, opts in (({"kind": "extra", "name": "named_like_library"}, ""), ({"kind": "extra", "name": "deprecated_rpc_only"}, ""),
-                     ({"kind": "features"}, ""), ({"kind": "features"}, "typing.310"), ({"kind": "extra", "name": "named_like_library"}, "typing.310")):
+                     ({"kind": "features"}, ""), ({"kind": "features"}, "typing.310"), ({"kind": "extra", "name": "odd_map_and_nested_names"}, ""), ({"kind": "extra", "name": "named_like_library"}, "typing.310")):
         shards.append({"kind": "generated", "item": it, "opts": opts, "seed": seed})
     return shards
 
